@@ -6,6 +6,7 @@ import (
 	"sort"
 	"strings"
 	"sync"
+	"time"
 	"unsafe"
 
 	"github.com/biogo/biogo/verifrt/vrt"
@@ -63,6 +64,42 @@ func lostUpdate(locked bool) func() vrt.Run {
 			vrt.Join(b)
 		}, Verdict: verdict(func() string { return fmt.Sprint(c) })}
 	}
+}
+
+// leaky keeps state between executions in a package-level variable, as a buffer cache in the code under
+// test would: only the first execution of a process takes the extra steps of "allocating", so a replay
+// in the same process takes another course; and only an execution that starts from the fresh state can
+// lose the update.
+var leakyWarm int
+
+func leaky() vrt.Run {
+	var c int
+	cold := false
+	inc := func() {
+		vrt.Atomic(&c)
+		v := c
+		if cold {
+			vrt.Atomic(&c) // a step only the cold path has
+			vrt.Atomic(&c)
+			c = v + 1
+		} else {
+			c = v + 1
+		}
+	}
+	return vrt.Run{Body: func() {
+		cold = leakyWarm == 0
+		leakyWarm++
+		a := vrt.Go(inc)
+		b := vrt.Go(inc)
+		vrt.Join(a)
+		vrt.Join(b)
+	}, Verdict: func(r *vrt.Result) (string, string, string) {
+		o := sig(r, fmt.Sprint(c))
+		if c != 2 {
+			return "lost-update", o, o
+		}
+		return "", o, o
+	}}
 }
 
 func abba(ordered bool) func() vrt.Run {
@@ -412,6 +449,26 @@ func SelfCheck() (ok bool, report []string) {
 			report = append(report, fmt.Sprintf("FAIL sym-3-lost-update bound %d: outcomes %v with symmetry, %v without", b, outcomes(s), outcomes(a)))
 		}
 		report = append(report, fmt.Sprintf("sym-3-lost-update preemptions<=%d: executions %d, with symmetry %d, outcomes %d", b, a.Executions, s.Executions, len(outcomes(a))))
+	}
+	// code that keeps package-level state: exploring it in one process must not report anything (a replay
+	// takes another course), exploring it with a "process" per execution (here: the state reset before each)
+	// must find the lost update that only the fresh state has
+	{
+		leakyWarm = 0
+		shared := vrt.NewExplorer(vrt.Config{PreemptBound: -1, Quiet: true}).Explore(func() vrt.Run { return leaky() })
+		iso := vrt.ExploreIsolated(func(prefix []int) vrt.One {
+			leakyWarm = 0
+			return vrt.NewExplorer(vrt.Config{PreemptBound: -1}).One(func() vrt.Run { return leaky() }, prefix)
+		}, 2, 1, time.Minute)
+		if len(shared.Violations) > 0 || shared.Exhaustive {
+			ok = false
+			report = append(report, fmt.Sprintf("FAIL leaky: exploration in one process reported violations=%d exhaustive=%v (%s)", len(shared.Violations), shared.Exhaustive, shared.Why))
+		}
+		if len(iso.Violations) != 1 || iso.Violations[0].Class != "lost-update" || !iso.Exhaustive || strings.Join(outcomes(iso), ";") != "ok:1;ok:2" {
+			ok = false
+			report = append(report, fmt.Sprintf("FAIL leaky: one process per execution: violations=%d exhaustive=%v outcomes=%v why=%s", len(iso.Violations), iso.Exhaustive, outcomes(iso), iso.Why))
+		}
+		report = append(report, fmt.Sprintf("leaky (package-level state): shared process: %s; one fresh state per execution: executions=%d violations=%d outcomes=%v", shared.Why, iso.Executions, len(iso.Violations), outcomes(iso)))
 	}
 	// independent steps: the uncached count is the number of interleavings of
 	// (n+1) and (m+1) steps after both threads exist; checked against the closed form
